@@ -1772,7 +1772,7 @@ def GET_EYE(
     eye_dict["t_span1"] = t_span1 = t_center + 0.05 * t_dist
 
     # Within the 10% of the data in the center of the eye diagram, we separate into two clusters top and bottom
-    y_center = find_nearest(y_set, (state_0 + state_1) / 2)
+    y_center = (state_0 + state_1) / 2
 
     # We obtain the optimum time for down sampling
     if sps_resamp:
